@@ -12,7 +12,7 @@ use std::path::Path;
 use std::sync::Arc;
 use tensor_chain::{
     AppendEntries, AppendEntriesResponse, Block, BlockHeader, LogEntry, MemoryTransport, Message, RaftConfig,
-    RaftNode, RaftRecoveryState, RaftState, RaftWal, RaftWalEntry, RequestVote, RequestVoteResponse,
+    RaftNode, RaftRecoveryState, RaftState, RaftWal, RaftWalEntry, RequestVote, RequestVoteResponse, SnapshotMetadata,
 };
 use tensor_store::SparseVector;
 
@@ -59,6 +59,10 @@ enum Step {
     /// in-memory log compaction: finalize_to(commit_index - back), create_snapshot, truncate_log;
     /// `newbase` (first retained index - 1) is read off the node afterwards
     Compact { back: u64, newbase: u64 },
+    /// install_snapshot(metadata, data) with the complete log `ents` (index 1..) as data;
+    /// last_included_term = `lit` = term of the last entry; `accepted` = the call returned Ok
+    /// (read off the node: a snapshot not newer than the last one is refused)
+    InstallSnap { lit: u64, ents: Vec<LEntry>, accepted: bool },
 }
 fn le_coq(e: &LEntry) -> String {
     format!("({}, {}, {})", e.0, e.1, e.2)
@@ -76,6 +80,7 @@ impl Step {
             Step::BecomeLeader => "XS BecomeLeader".into(),
             Step::Compact { newbase, .. } => format!("XCompact {newbase}"),
             Step::Propose(h) => format!("XS (Propose {h})"),
+            Step::InstallSnap { lit, ents, accepted } => format!("XS (InstallSnap {lit} {} {})", list(ents.iter().map(le_coq)), b(*accepted)),
         }
     }
 }
@@ -164,6 +169,14 @@ fn apply(node: &RaftNode, s: &Step) -> Vec<u64> {
             }
             vec![]
         }
+        Step::InstallSnap { ents, lit, .. } => {
+            use sha2::{Digest, Sha256};
+            let entries: Vec<LogEntry> = ents.iter().map(|(i, tt, h)| LogEntry::new(*tt, *i, block(*h))).collect();
+            let data = bitcode::serialize(&entries).unwrap();
+            let hash: [u8; 32] = Sha256::digest(&data).into();
+            let meta = SnapshotMetadata::new(ents.last().map_or(0, |e| e.0), *lit, hash, vec![nid(1), nid(2)], data.len() as u64);
+            vec![node.install_snapshot(meta, &data).is_ok() as u64]
+        }
         Step::Propose(h) => {
             node.quorum_tracker().mark_reachable(&nid(1));
             node.quorum_tracker().mark_reachable(&nid(2));
@@ -215,6 +228,14 @@ impl Table {
                 }
             }
             Step::BecomeLeader | Step::Compact { .. } => {}
+            Step::InstallSnap { lit, ents, .. } => {
+                self.tv(*lit, None);
+                for e in ents {
+                    self.full(e);
+                    self.trunc(e.0);
+                }
+                self.trunc(ents.len() as u64 + 1);
+            }
             Step::Propose(h) => self.full(&(len + 1, term, *h)),
         }
     }
@@ -275,9 +296,30 @@ fn run_generation(node: RaftNode, wal: &Path, scratch: &Path, steps: &[Step], ta
                 }
             }
         }
+        if let Step::InstallSnap { ents, lit, .. } = s {
+            // entries the node already holds (same index and term) are the same entries; the last
+            // entry carries the last-included term; after a compaction the node no longer shows
+            // what it compacted away, so no snapshot is offered then (an empty one is refused)
+            if cbase > 0 {
+                ents.clear();
+                dist.hit("step.InstallSnap.skipped_after_compaction");
+            }
+            for e in ents.iter_mut() {
+                if let Some(x) = image.iter().find(|x| x.0 == e.0 && x.1 == e.1) {
+                    e.2 = x.2;
+                }
+            }
+            if let Some(last) = ents.last() {
+                *lit = last.1;
+            }
+        }
         tab.for_step(s, node.current_term(), node.last_log_index());
         dist.hit(&format!("step.{}", format!("{s:?}").split(|c: char| !c.is_alphanumeric()).next().unwrap_or("?")));
         let out = guarded(std::panic::AssertUnwindSafe(|| apply(&node, s))).unwrap_or_else(|_| vec![98]);
+        if let Step::InstallSnap { accepted, .. } = s {
+            *accepted = out == vec![1];
+            dist.hit(if *accepted { "step.InstallSnap.accepted" } else { "step.InstallSnap.refused" });
+        }
         if let Step::Compact { newbase, .. } = s {
             *newbase = node.verif_log_image().first().map_or(0, |e| e.0 - 1);
             if *newbase > cbase {
@@ -486,6 +528,19 @@ fn gen_step(r: &mut Rng, term: u64, log: &[LEntry], role: u64) -> Step {
         80..=84 => Step::AppendResp { from: *r.pick(&[1u64, 2]), t: near_term(r) },
         85..=87 => Step::BecomeLeader,
         88..=90 => Step::Compact { back: r.below(2), newbase: 0 },
+        91..=95 => {
+            // a snapshot: a prefix of the local log, then (mostly) newer entries; its last entry is
+            // of the last-included term, at or above the node's term half of the time
+            let keep = r.below(len + 1) as usize;
+            let mut ents: Vec<LEntry> = log[..keep].to_vec();
+            let floor = ents.last().map_or(1, |e| e.1).max(1);
+            let lit = if r.chance(1, 2) { (term + r.below(3)).max(floor) } else { floor + r.below(2) };
+            let extra = if keep > 0 && r.chance(1, 4) { 0 } else { r.range(1, 3) };
+            for j in 0..extra {
+                ents.push((keep as u64 + 1 + j, lit, 300 + r.below(50)));
+            }
+            Step::InstallSnap { lit, ents, accepted: false }
+        }
         _ => {
             if role == 2 || r.chance(1, 3) {
                 Step::Propose(200 + r.below(50))
@@ -558,6 +613,78 @@ fn main() {
         );
     }
 
+    TRAILING.store(1, std::sync::atomic::Ordering::SeqCst);
+    // snapshot installs: (a) over a conflicting local log, then a heartbeat that acknowledges the
+    // installed entries, restart at every byte -- the installed entries must be back; (b) a vote
+    // held in the old term, a snapshot with a higher last-included term (no vote in it), a vote for
+    // another candidate in that term, restart, the first candidate asks again; (c) a snapshot shorter
+    // than the (consistent) local log; a second, older snapshot is refused
+    run_case(
+        &mut cx,
+        "corpus snapshot-install-over-conflicting-log",
+        vec![
+            vec![
+                Step::Append { t: 1, leader: 1, prev_i: 0, prev_t: 0, ents: vec![(1, 1, 101), (2, 1, 102)], commit: 0 },
+                Step::InstallSnap { lit: 2, ents: vec![(1, 1, 101), (2, 2, 202), (3, 2, 203), (4, 2, 204)], accepted: false },
+                Step::Append { t: 2, leader: 2, prev_i: 4, prev_t: 2, ents: vec![], commit: 4 },
+            ],
+            vec![Step::Append { t: 2, leader: 2, prev_i: 4, prev_t: 2, ents: vec![(5, 2, 205)], commit: 4 }, Step::Elect],
+        ],
+        vec![pick_back(30), pick_end()],
+    );
+    run_case(
+        &mut cx,
+        "corpus snapshot-install-raises-term-while-vote-held",
+        vec![
+            vec![
+                Step::ReqVote { t: 1, cand: 1, lli: 0, llt: 0 },
+                Step::InstallSnap { lit: 3, ents: vec![(1, 3, 301), (2, 3, 302)], accepted: false },
+                Step::ReqVote { t: 3, cand: 2, lli: 2, llt: 3 },
+            ],
+            vec![Step::ReqVote { t: 3, cand: 1, lli: 2, llt: 3 }, Step::ReqVote { t: 3, cand: 2, lli: 2, llt: 3 }],
+        ],
+        vec![pick_end(), pick_end()],
+    );
+    run_case(
+        &mut cx,
+        "corpus snapshot-shorter-than-log-then-older-snapshot",
+        vec![
+            vec![
+                Step::Append { t: 2, leader: 1, prev_i: 0, prev_t: 0, ents: vec![(1, 1, 101), (2, 2, 102), (3, 2, 103), (4, 2, 104)], commit: 2 },
+                Step::InstallSnap { lit: 2, ents: vec![(1, 1, 101), (2, 2, 102), (3, 2, 103)], accepted: false },
+                Step::InstallSnap { lit: 2, ents: vec![(1, 1, 101), (2, 2, 102)], accepted: false },
+                Step::Elect,
+            ],
+            vec![Step::BecomeLeader, Step::Propose(230)],
+        ],
+        vec![pick_end(), pick_end()],
+    );
+    // a LEADER is deposed by an AppendEntriesResponse / RequestVoteResponse of a later term, answers in
+    // that term, restarts before anything else carries the term
+    run_case(
+        &mut cx,
+        "corpus leader-deposed-by-append-response",
+        vec![
+            vec![
+                Step::Elect,
+                Step::VoteResp { from: 1, t: 1, granted: true },
+                Step::Propose(210),
+                Step::AppendResp { from: 2, t: 4 },
+                Step::Append { t: 3, leader: 1, prev_i: 0, prev_t: 0, ents: vec![(1, 3, 131)], commit: 0 },
+                Step::ReqVote { t: 3, cand: 2, lli: 5, llt: 5 },
+            ],
+            vec![Step::Append { t: 3, leader: 1, prev_i: 0, prev_t: 0, ents: vec![(1, 3, 131)], commit: 0 }, Step::Elect],
+            vec![Step::BecomeLeader, Step::AppendResp { from: 1, t: 9 }, Step::Elect],
+        ],
+        vec![pick_end(), pick_end(), pick_end()],
+    );
+    run_case(
+        &mut cx,
+        "corpus candidate-deposed-by-vote-response",
+        vec![vec![Step::Elect, Step::VoteResp { from: 2, t: 6, granted: false }, Step::ReqVote { t: 5, cand: 1, lli: 0, llt: 0 }], vec![Step::Elect]],
+        vec![pick_end(), pick_end()],
+    );
+
     // ---------------- seeded ----------------
     let ncases = args.budget(40, 500);
     for ci in 0..ncases {
@@ -608,6 +735,14 @@ fn main() {
                     }
                     Step::BecomeLeader => role = 2,
                     Step::Compact { .. } => {}
+                    Step::InstallSnap { ents, .. } => {
+                        if let Some(last) = ents.last() {
+                            if last.1 > term {
+                                term = last.1;
+                            }
+                            log = ents.clone();
+                        }
+                    }
                     Step::Propose(h) => {
                         if role == 2 {
                             log.push((log.len() as u64 + 1, term, *h));
